@@ -36,7 +36,7 @@ fn values(n: usize, ctx: &Ctx) -> Vec<Limbs> {
     v.push(probe2.chunks(8).map(|c| u64::from_le_bytes(c.try_into().unwrap())).collect());
     let (g1, g2) = generic_limbs(ctx.seed);
     v.push((0..n).map(|i| if i % 2 == 0 { g1 } else { g2 }.rotate_left(i as u32)).collect());
-    thin(dedup(v), if ctx.thorough() { 2000 } else { 400 })
+    thin(dedup(v), if ctx.thorough() { 20000 } else { 400 })
 }
 
 macro_rules! fam_alias {
@@ -181,6 +181,52 @@ impl NoArr {
 }
 
 /// hex decoders: every byte value at every nibble position; all 2-character strings at one position
+/// every string obtained from a valid hex numeral of Uint<N> by overwriting `wlen` consecutive characters at `offset`
+/// with ALL byte combinations: accepted (and decoded positionally, both byte orders) iff every character is a hex digit
+fn hex_windows<const N: usize>(ctx: &Ctx, wlen: usize, offsets: Vec<usize>)
+where
+    Uint<N>: Encoding,
+{
+    let is_hex = |b: u8| b.is_ascii_hexdigit();
+    let hexval = |b: u8| (b as char).to_digit(16).unwrap() as u64;
+    let base: Vec<u8> = "0123456789abcdeffedcba9876543210".bytes().cycle().take(16 * N).collect();
+    let per = 256usize.pow(wlen as u32);
+    let wname = format!("Uint<{N}> all {wlen}-char windows at {} offsets", offsets.len());
+    ctx.par_for("hex_decode", &wname, offsets.len() * per, |i, l| {
+        let (off, mut code) = (offsets[i / per], i % per);
+        let mut s = base.clone();
+        for k in 0..wlen {
+            s[off + k] = (code % 256) as u8;
+            code /= 256;
+        }
+        let ins: [&[u64]; 1] = [&[off as u64, (i % per) as u64]];
+        let mut cs = Case::new(l, P, "hex_decode", &wname, &ins);
+        let Ok(st) = String::from_utf8(s.clone()) else {
+            return;
+        };
+        cs.l.nontrivial += 1;
+        let valid = s.iter().all(|&b| is_hex(b));
+        let bytes: Vec<u8> = s.chunks(2).map(|p| if valid { ((hexval(p[0]) << 4) | hexval(p[1])) as u8 } else { 0 }).collect();
+        let mut be = vec![0u64; N];
+        let mut le = vec![0u64; N];
+        for (k, &b) in bytes.iter().enumerate() {
+            let kb = bytes.len() - 1 - k; // big endian: first byte is the most significant
+            be[kb / 8] |= (b as u64) << (8 * (kb % 8));
+            le[k / 8] |= (b as u64) << (8 * (k % 8));
+        }
+        let e = if valid { Out::v(&be) } else { Out::Panic };
+        chk!(cs, "Uint::from_be_hex", &e, Out::v(&w(&Uint::<N>::from_be_hex(&st))));
+        cs.group();
+        let el = if valid { Out::v(&le) } else { Out::Panic };
+        chk!(cs, "Uint::from_le_hex", &el, Out::v(&w(&Uint::<N>::from_le_hex(&st))));
+        cs.group();
+        chk!(cs, "Boxed::from_be_hex", &(if valid { Out::v(&be) } else { Out::None }), match Option::<BoxedUint>::from(BoxedUint::from_be_hex(&st, 64 * N as u32)) {
+            Some(x) => Out::v(&bw(&x)),
+            None => Out::None,
+        });
+    });
+}
+
 fn fam_hex(ctx: &Ctx) {
     if !ctx.want("hex_decode") {
         return;
@@ -247,25 +293,13 @@ fn fam_hex(ctx: &Ctx) {
             }
         }
     });
-    // all two-character strings at the first byte position of a U64
-    ctx.par_for("hex_decode", "U64 all 2-char prefixes", 65536, |i, l| {
-        let (c0, c1) = ((i / 256) as u8, (i % 256) as u8);
-        let mut s = b"00000000000000ff".to_vec();
-        s[0] = c0;
-        s[1] = c1;
-        let ins: [&[u64]; 1] = [&[c0 as u64, c1 as u64]];
-        let mut cs = Case::new(l, P, "hex_decode", "U64", &ins);
-        let Ok(st) = String::from_utf8(s.clone()) else {
-            return;
-        };
-        cs.l.nontrivial += 1;
-        let valid = is_hex(c0) && is_hex(c1);
-        let e = if valid { Out::Val(vec![((hexval(c0) << 4 | hexval(c1)) as u64) << 56 | 0xff]) } else { Out::Panic };
-        chk!(cs, "U64::from_be_hex", &e, Out::v(&w(&U64::from_be_hex(&st))));
-        cs.group();
-        let el = if valid { Out::Val(vec![(hexval(c0) << 4 | hexval(c1)) as u64 | 0xff << 56]) } else { Out::Panic };
-        chk!(cs, "U64::from_le_hex", &el, Out::v(&w(&U64::from_le_hex(&st))));
-    });
+    // all two-character windows: quick = the first byte position of a U64; thorough = EVERY character offset (also the
+    // odd ones, which straddle two bytes) of a U64 and of a U128, plus all three-character windows at offsets 0 and 13
+    hex_windows::<1>(ctx, 2, if ctx.thorough() { (0..15).collect() } else { vec![0] });
+    if ctx.thorough() {
+        hex_windows::<2>(ctx, 2, (0..31).collect());
+        hex_windows::<1>(ctx, 3, vec![0, 13]);
+    }
     // wrong lengths panic (documented: "not zero-padded accordingly for the size")
     ctx.seq("hex_decode", "lengths", |l| {
         for len in 0..=40usize {
@@ -295,9 +329,9 @@ fn fam_boxed_slices(ctx: &Ctx) {
     if !ctx.want("boxed_slices") {
         return;
     }
-    let maxp = 520usize;
+    let maxp = if ctx.thorough() { 2100usize } else { 520 };
     let jobs: Vec<(usize, usize)> = (0..=maxp).flat_map(|p| (0..=p / 8 + 9).map(move |len| (p, len))).collect();
-    ctx.par_for("boxed_slices", "precision 0..=520 x length 0..=p/8+9", jobs.len(), |i, l| {
+    ctx.par_for("boxed_slices", "precision 0..=520 (2100 thorough) x length 0..=p/8+9", jobs.len(), |i, l| {
         let (prec, len) = jobs[i];
         // content patterns (as big-endian byte strings of `len` bytes)
         let mut pats: Vec<Vec<u8>> = vec![vec![0u8; len], vec![0xffu8; len]];
@@ -600,6 +634,7 @@ fn fam_convert(ctx: &Ctx) {
 
 fn main() {
     let ctx = Ctx::from_args(P, "exploration");
+    ctx.section_cap.store(40_000_000, std::sync::atomic::Ordering::Relaxed); // decoding a short string costs well under a microsecond
     ctx.set_rule("E5+E1: values FULL(n<=2,L13) / RUNS(n,L5,2) + byte-position probes (byte i = i+1) through every encoder/decoder/format/serde route with a positional reference; \
         hex decoders: ALL 256 byte values at every one of 32 nibble positions of a U128 string and ALL 65536 two-character prefixes of a U64 string, all lengths 0..=40; \
         BoxedUint::from_be/le_slice: EVERY precision 0..=520 x EVERY length 0..=precision/8+9 x content patterns (zeros, ones, probe, 2^precision, 2^precision-1, 2^(precision-1), 1, 0x80..); primitives 2^j, 2^j-1 for all j; concat/split/resize/widen/shorten. \
